@@ -141,7 +141,9 @@ func init() {
 		"runtime.Gosched":            nop,
 		"runtime.KeepAlive":          nop,
 		"github.com/tsuna/gohbase/internal/observability.StartSpan": func(e *Exec, g *Goroutine, fn *ssa.Function, a []Value) (Value, bool) {
-			return TupleV{a[0], IfaceV{t: opaqueErrType, v: OpaqueV{"span"}}}, false
+			// the tracer returns a context carrying the span: a distinct value (callers compare contexts)
+			v, _ := ctxWithValue(e, g, fn, a)
+			return TupleV{v, IfaceV{t: opaqueErrType, v: OpaqueV{"span"}}}, false
 		},
 		"google.golang.org/protobuf/proto.Size":                                   protoSize,
 		"(google.golang.org/protobuf/proto.MarshalOptions).MarshalAppend":         protoMarshalAppend,
@@ -210,6 +212,8 @@ func mutexLock(e *Exec, g *Goroutine, fn *ssa.Function, a []Value) (Value, bool)
 		return nil, true
 	}
 	m.locked = true
+	e.acq(g, "m"+e.lockKey(a[0].(Ptr)))
+	e.acq(g, "r"+e.lockKey(a[0].(Ptr)))
 	return nil, false
 }
 func mutexTryLock(e *Exec, g *Goroutine, fn *ssa.Function, a []Value) (Value, bool) {
@@ -225,6 +229,7 @@ func mutexUnlock(e *Exec, g *Goroutine, fn *ssa.Function, a []Value) (Value, boo
 	if !m.locked {
 		panic(mkEnd("panic", "unlock of unlocked mutex"))
 	}
+	e.rel(g, "m"+e.lockKey(a[0].(Ptr)))
 	m.locked = false
 	return nil, false
 }
@@ -235,6 +240,7 @@ func mutexRLock(e *Exec, g *Goroutine, fn *ssa.Function, a []Value) (Value, bool
 		return nil, true
 	}
 	m.readers++
+	e.acq(g, "m"+e.lockKey(a[0].(Ptr)))
 	return nil, false
 }
 func mutexRUnlock(e *Exec, g *Goroutine, fn *ssa.Function, a []Value) (Value, bool) {
@@ -243,6 +249,7 @@ func mutexRUnlock(e *Exec, g *Goroutine, fn *ssa.Function, a []Value) (Value, bo
 		panic(mkEnd("panic", "RUnlock of unlocked RWMutex"))
 	}
 	m.readers--
+	e.rel(g, "r"+e.lockKey(a[0].(Ptr)))
 	return nil, false
 }
 
@@ -261,6 +268,7 @@ func onceDo(e *Exec, g *Goroutine, fn *ssa.Function, a []Value) (Value, bool) {
 		e.onces[k] = o
 	}
 	if o.done {
+		e.acq(g, "o"+k)
 		return nil, false
 	}
 	if o.running {
@@ -270,7 +278,7 @@ func onceDo(e *Exec, g *Goroutine, fn *ssa.Function, a []Value) (Value, bool) {
 	o.running = true
 	f := a[1].(FuncV)
 	e.pushedFrame = true
-	e.pushCall(g, f, nil, nil, func(Value) { o.done, o.running = true, false })
+	e.pushCall(g, f, nil, nil, func(Value) { e.rel(g, "o"+k); o.done, o.running = true, false })
 	return nil, false
 }
 
@@ -299,6 +307,7 @@ func wgAdd(e *Exec, g *Goroutine, fn *ssa.Function, a []Value) (Value, bool) {
 }
 func wgDone(e *Exec, g *Goroutine, fn *ssa.Function, a []Value) (Value, bool) {
 	w := e.wg(a[0].(Ptr))
+	e.rel(g, "w"+e.lockKey(a[0].(Ptr)))
 	w.n--
 	if w.n < 0 {
 		panic(mkEnd("panic", "negative WaitGroup counter"))
@@ -311,6 +320,7 @@ func wgWait(e *Exec, g *Goroutine, fn *ssa.Function, a []Value) (Value, bool) {
 		e.block(g, "WaitGroup.Wait", func() bool { return w.n == 0 })
 		return nil, true
 	}
+	e.acq(g, "w"+e.lockKey(a[0].(Ptr)))
 	return nil, false
 }
 
@@ -319,6 +329,7 @@ func wgWait(e *Exec, g *Goroutine, fn *ssa.Function, a []Value) (Value, bool) {
 func poolGet(e *Exec, g *Goroutine, fn *ssa.Function, a []Value) (Value, bool) {
 	p := a[0].(Ptr)
 	k := e.lockKey(p)
+	e.acq(g, "p"+k)
 	if items := e.pools[k]; len(items) > 0 {
 		if e.choose(2) == 0 {
 			v := items[len(items)-1]
@@ -340,20 +351,30 @@ func poolPut(e *Exec, g *Goroutine, fn *ssa.Function, a []Value) (Value, bool) {
 	if iv, ok := a[1].(IfaceV); ok && iv.t == nil {
 		return nil, false
 	}
+	e.rel(g, "p"+k)
 	e.pools[k] = append(e.pools[k], a[1])
 	return nil, false
 }
 
 func atomicAdd(e *Exec, g *Goroutine, fn *ssa.Function, a []Value) (Value, bool) {
 	p := a[0].(Ptr)
+	e.acq(g, "a"+e.lockKey(p))
+	defer e.rel(g, "a"+e.lockKey(p))
+	defer func(on bool) { e.raceOn = on }(e.raceOn)
+	e.raceOn = false
 	v := e.tt.Bin(OAdd, e.load(p).(*Term), a[1].(*Term))
 	e.store(p, v)
 	return v, false
 }
 func atomicLoad(e *Exec, g *Goroutine, fn *ssa.Function, a []Value) (Value, bool) {
+	e.acq(g, "a"+e.lockKey(a[0].(Ptr)))
+	defer func(on bool) { e.raceOn = on }(e.raceOn)
+	e.raceOn = false
 	return e.load(a[0].(Ptr)), false
 }
 func atomicStore(e *Exec, g *Goroutine, fn *ssa.Function, a []Value) (Value, bool) {
+	defer func(on bool) { e.raceOn = on; e.rel(g, "a"+e.lockKey(a[0].(Ptr))) }(e.raceOn)
+	e.raceOn = false
 	e.store(a[0].(Ptr), a[1])
 	return nil, false
 }
@@ -670,6 +691,7 @@ func (e *Exec) newCtx(parent *ctxObj, timeout bool) (*ctxObj, FuncV) {
 	c.done.ctx = c
 	if parent.isCancelled() {
 		c.cancelled, c.done.closed = true, true
+		c.deadline = parent.byDeadline()
 	}
 	e.ctxs = append(e.ctxs, c)
 	cancel := FuncV{native: func(e *Exec, g *Goroutine, args []Value) Value {
@@ -690,8 +712,35 @@ func ctxWithTimeout(e *Exec, g *Goroutine, fn *ssa.Function, a []Value) (Value, 
 	return TupleV{IfaceV{t: e.ctxT(), v: c}, cancel}, false
 }
 
+// byDeadline: the nearest cancelled ancestor (or c itself) ended by deadline expiry.
+func (c *ctxObj) byDeadline() bool {
+	for p := c; p != nil; p = p.parent {
+		if p.cancelled {
+			return p.deadline
+		}
+	}
+	return false
+}
+
+// verifExpire(ctx): the deadline of ctx (made by WithTimeout / WithDeadline) passes now, also
+// while time is frozen. Natively: wait for the (short) real deadline.
+func ctxExpire(e *Exec, ctx Value) {
+	c := e.parentCtx(ctx)
+	if !c.timeout {
+		panic(mkEnd("engine", "verifExpire on a context without deadline"))
+	}
+	if !c.cancelled {
+		c.deadline = true
+		e.cancelCtx(c)
+	}
+}
+
+// ctxWithValue: a child that carries no cancellation state of its own (Done/Err are its
+// parent's) but is a different context value.
 func ctxWithValue(e *Exec, g *Goroutine, fn *ssa.Function, a []Value) (Value, bool) {
-	return a[0], false
+	p := e.parentCtx(a[0])
+	e.nobj++
+	return IfaceV{t: e.ctxT(), v: &ctxObj{id: e.nobj, parent: p}}, false
 }
 
 func (e *Exec) cancelCtx(c *ctxObj) {
@@ -701,12 +750,15 @@ func (e *Exec) cancelCtx(c *ctxObj) {
 	c.cancelled = true
 	if c.done != nil {
 		c.done.closed = true
+		e.rel(e.cur, c.done)
 	}
 	e.fireAfter(c)
 	for _, d := range e.ctxs { // propagate to descendants
 		if !d.cancelled && d.isCancelled() && d.done != nil {
 			d.cancelled = true
+			d.deadline = c.deadline // a child reports its parent's error
 			d.done.closed = true
+			e.rel(e.cur, d.done)
 			e.fireAfter(d)
 		}
 	}
@@ -945,6 +997,11 @@ func (e *Exec) intrinsic(g *Goroutine, fn *ssa.Function, args []Value) (Value, b
 			k := concStr(args[0], "verifFail")
 			stat(e.asserts, k).Fail++
 			panic(pathEnd{kind: "assertfail", msg: k, key: "assert: " + k})
+		case "verifJitter": // native schedule perturbation only
+			return nil, false
+		case "verifExpire":
+			ctxExpire(e, args[0])
+			return nil, false
 		case "verifReach":
 			e.reach[concStr(args[0], "verifReach")]++
 			return nil, false
@@ -999,6 +1056,11 @@ func (e *Exec) intrinsic(g *Goroutine, fn *ssa.Function, args []Value) (Value, b
 					return true
 				})
 				return nil, true
+			}
+			if e.raceOn {
+				for _, o := range e.gs {
+					g.vc = vjoin(g.vc, o.vc)
+				}
 			}
 			return nil, false
 		case "verifBlocked", "verifGoroutines":
